@@ -342,7 +342,9 @@ PROPS["C20"] = {
              "accessor for flush/reconn/connbuf/iobuf, (*GrafanaNet).Cfg). Oracle: both renderings give the same entry, equal to the model whose "
              "defaults are transcribed from the tables in docs/config.md. Sub-checks: blacklist_rewriter, aggregation (all ten functions; "
              "percentiles TOML-only; cache default not documented so only checked when set), carbon_route (3 types, 1-3 destinations, 10 numeric + "
-             "2 boolean + 6 filter options per destination), grafananet_route, concurrent_commands (2-10 generated addRoute commands applied at the same instant from as many goroutines, as the admin "
+             "2 boolean + 6 filter options per destination), grafananet_route, numeric_match_values (match options whose value is digits only - prefix=404, sub=500, regex=2019 - in addBlack / addRoute route and "
+             "destination position, last or followed by further options / addAgg / modRoute / modDest: the command is either refused with an error or the entry "
+             "holds exactly the written value), concurrent_commands (2-10 generated addRoute commands applied at the same instant from as many goroutines, as the admin "
              "port does for several connections: each must be accepted and yield the route its own text describes), route_sections (2-4 [[route]] tables of mixed types in ONE file: "
              "each must come out as its own addRoute command says, in file order -- what one section sets or omits must not leak into "
              "another; non-trivial there: a grafanaNet section omits a boolean that an earlier section sets). interpolation: config texts assembled from the documented "
@@ -354,9 +356,9 @@ PROPS["C20"] = {
     "level_note": "kafkaMdm / pubsub / cloudWatch routes cannot be constructed offline. Values avoid spaces and tokens the command tokenizer treats specially (true/false/bare numbers for string options). $VAR without braces is undocumented: substituted or left alone are both accepted.",
     "technique": "property-based testing (rapid): differential TOML-vs-command oracle + documentation-derived model; identity oracle for interpolation",
     "assumptions": ["docs/config.md tables are the documented defaults", "the package-main test driver calls the real readConfigFile"],
-    "quick": [R("TestPropBlacklistAndRewriter", 1500), R("TestPropAggregation", 1200), R("TestPropCarbonRoute", 1200), R("TestPropGrafanaNetRoute", 150), R("TestPropRouteSections", 150), R("TestPropConcurrentCommands", 400), R("TestPropInterpolation", 5000)],
+    "quick": [R("TestPropBlacklistAndRewriter", 1500), R("TestPropAggregation", 1200), R("TestPropCarbonRoute", 1200), R("TestPropGrafanaNetRoute", 150), R("TestPropRouteSections", 150), R("TestPropConcurrentCommands", 400), R("TestPropNumericMatchValues", 3000), R("TestPropInterpolation", 5000)],
     "thorough": [R("TestPropBlacklistAndRewriter", 20000, shards=2, timeout=2400), R("TestPropAggregation", 10000, shards=3, timeout=2400),
-                 R("TestPropCarbonRoute", 10000, shards=6, timeout=2400), R("TestPropGrafanaNetRoute", 600, shards=3, timeout=2400), R("TestPropRouteSections", 1500, shards=2, timeout=2400), R("TestPropConcurrentCommands", 8000, shards=2, timeout=2400),
+                 R("TestPropCarbonRoute", 10000, shards=6, timeout=2400), R("TestPropGrafanaNetRoute", 600, shards=3, timeout=2400), R("TestPropRouteSections", 1500, shards=2, timeout=2400), R("TestPropConcurrentCommands", 8000, shards=2, timeout=2400), R("TestPropNumericMatchValues", 50000, timeout=2400),
                  R("TestPropInterpolation", 200000, shards=2, timeout=2400)],
 }
 
